@@ -476,6 +476,11 @@ impl Scenario for Tm {
             }
             Kind::ClientPing => {
                 let kk = self.cfg.ep.client_keepalive as u32;
+                // a response that falls due while the application has a streamed publish open cannot be written and
+                // ends the connection (C08 allows exactly that); it is not a timer matter
+                if other_stop && self.stream_span.is_some() && stops.iter().all(|s| s.contains("ExpectPayload")) {
+                    return Ok(Outcome { obs: "ended by a response during an open stream".into(), nontrivial: false });
+                }
                 if other_stop || ka_stop || rd_stop {
                     return Err(Violation::new("unexpected-stop", self.wit("client"), format!("client connection ended: {}", self.detail())));
                 }
